@@ -136,6 +136,11 @@ def run_case(case, rec):
                 res = {'lmf_version': '1.1', 'lexicons': [lx]}
                 wnio.add(wnio.write_resource(res, work, random.Random(i), name=f'l{i}.xml'))
                 m.add_resource(res)
+                if i == 0 and case['seed'] % 2 == 0:
+                    # long-lived process: relation queries with type filters are made *before* the other lexicons (which use
+                    # relation types the base does not) are added over the same connection; nothing learnt here may stick
+                    rec.event('scope.base-early')
+                    check_entities(rec, wnio.wordnet(['rb:1'], []), View(m, ['rb:1'], False, []), steps, r, 'base-early')
             scopes = [('base', ['rb:1'], False), ('base+ext', ['rb:1', 'rx:1'], False), ('ext', ['rx:1'], False),
                       ('default', None, True)]
             for label, sel, default in scopes:
